@@ -1,14 +1,14 @@
 SPECIFICATION Spec
 CONSTANTS
-  Addr <- AddrRestart
-  Gaps <- GapsRestartF
+  Addr <- Addr1
+  Gaps <- GapsJitter1
   T = 10
-  D = 0
-  MaxEvents = 4
-  MaxFails = 0
-  Extra = "none"
-  Backoff = FALSE
-  Closed = TRUE
+  D = 1
+  MaxEvents = 2
+  MaxFails = 3
+  Extra = "any"
+  Backoff = TRUE
+  Closed = FALSE
   ObserveCb = FALSE
   TrackQuiet = FALSE
   UnitMs = 1000
